@@ -56,6 +56,12 @@ func (e *Exec) ctxKVStore(ctx Value, key Value) Value {
 	if o, ok := key.(Opaque); ok {
 		name = fmt.Sprint(o.Data)
 	}
+	// stores are per context family: a context made by another vEnv* call has its own multistore
+	if co, ok := ctx.(Opaque); ok {
+		if cd, ok := co.Data.(*CtxData); ok && cd != nil {
+			name = cd.Name + "/" + name
+		}
+	}
 	kv := e.path.stores[name]
 	if kv == nil {
 		kv = &KVStore{Name: name}
@@ -297,8 +303,8 @@ func (e *Exec) storeMethod(o Opaque, method string, args []Value) Value {
 	case "Set":
 		k := args[0].(Bytes)
 		v := args[1].(Bytes)
-		if k.Nil || (k.Len.IsConst() && k.Len.Val == 0 && len(ref.Prefix) == 0) {
-			e.goPanicf("key is nil or empty")
+		if k.Nil || e.branch(smt.Eq(k.Len, c0)) {
+			e.goPanicf("key is nil") // types.AssertValidKey
 		}
 		if v.Nil {
 			e.goPanicf("value is nil")
